@@ -163,4 +163,39 @@ theorem C06_delta_keys (E : Evaluator) (items : List (String × Expr)) (mk : Val
       · exact Or.inl h1
     · right; simp [h1]
 
+/-! ### C07: an arrival at a staged task merges into its entry -/
+
+theorem updateStaged_go_length (k : TaskKey) (g : Staged → Staged) (l : List Staged) :
+    (WState.updateStaged.go k g l).length = l.length := by
+  induction l with
+  | nil => rfl
+  | cons a as ih =>
+    unfold WState.updateStaged.go
+    split
+    · rfl
+    · simp [ih]
+
+/-- **C07**: when the target of a satisfied transition is already staged (another branch arrived
+    before), the arrival is merged into that entry: no second entry is staged, so the task is
+    offered once for the barrier, not once per arriving branch; only a target that is not staged
+    yet gets a new entry -/
+theorem C07_arrival_merges (nk : TaskKey) (backref : TransId) (idx : Nat) (outIdxs : List Nat) (c : Cond) :
+    (stageTarget nk backref idx outIdxs c).2.st.staged.length =
+      if (c.st.getStaged? nk).isSome then c.st.staged.length else c.st.staged.length + 1 := by
+  unfold stageTarget
+  simp only [bind, M.bind', M.get]
+  cases hg : c.st.getStaged? nk with
+  | some x0 =>
+    simp only [Option.isSome_some, if_true]
+    cases he : eraseFirst outIdxs 0 with
+    | none => simp only [liftOpt, M.throw, M.bind']
+    | some rest =>
+      simp only [liftOpt, pure, M.pure', M.modifySt, M.modify]
+      show (WState.updateStaged.go nk _ c.st.staged).length = _
+      exact updateStaged_go_length _ _ _
+  | none =>
+    simp only [Option.isSome_none, Bool.false_eq_true, if_false, M.modifySt, M.modify]
+    show (c.st.staged ++ [_]).length = _
+    simp
+
 end Orq
